@@ -396,14 +396,22 @@ def c04(obs, act, viols, probes):
   site = sites[0][0] if sites else None
   # (i) liveness
   sphase = sigint_phase(obs) if mode == 'sigint' else None
-  nested = len(sites) > 1 and any(s_[0] in ('handle_sig_int', 'abort_from_sig_int', 'abort',
-                                            '_stop_phase_executor', 'stop', 'kill', 'async_raise',
-                                            'is_alive', '_is_thread_proc_running', 'has_expired')
-                                  for s_ in sites[1:])
+  # a SIGINT handled while an earlier SIGINT handler was still running on the main thread
+  nested = False
+  depth = 0
+  for e in log:
+    if e[3] == 'sigint_delivered':
+      if depth > 0:
+        nested = True
+      depth += 1
+    elif e[3] == 'sigint_handler_done':
+      depth -= 1
   if obs.failed in ('deadlock', 'hang'):
-    viols.append(_v('no_return_' + obs.failed, mode=mode, sigint_site=site, sigint_phase=sphase,
-                    nested_sigint=nested,
-                    self_deadlock_of_main=':SELF-DEADLOCK' in (obs.failed_info or '').split('|')[0],
+    selfdl = ':SELF-DEADLOCK' in (obs.failed_info or '').split('|')[0]
+    # (a self-deadlocked main thread is detected as 'hang' when some abandoned body still polls)
+    viols.append(_v('no_return_' + ('deadlock' if selfdl else obs.failed), mode=mode, sigint_site=site,
+                    sigint_phase=sphase, nested_sigint=nested, detected_as=obs.failed,
+                    self_deadlock_of_main=selfdl,
                     info=(obs.failed_info or '')[:300]))
     return
   if obs.failed is not None:
@@ -454,6 +462,24 @@ def c04(obs, act, viols, probes):
                       reinvocation=reinv, body_running_during_abort=running is not None,
                       n_late=len(late), is_test_start=e[4].endswith('_start'),
                       sigint_site=site))
+  # (ix) the body running when the abort call returns was asked to terminate
+  if r0 is not None and td_enter is not None and r0 < td_enter:
+    open_b = {}
+    asked = set()
+    for e in log:
+      if e[0] > r0:
+        break
+      if e[3] == 'body_start':
+        open_b[e[2]] = e
+      elif e[3] in ('body_end', 'body_exc'):
+        open_b.pop(e[2], None)
+      elif e[3] == 'async_exc_set':
+        asked.add(e[4])
+    for tid, e in open_b.items():
+      if roles.get(e[4]) == 'abortable' and tid not in asked and e[0] > calls[0][0] - 10 ** 9:
+        viols.append(_v('running_body_not_asked_to_terminate', phase=e[4], mode=mode,
+                        body_started_after_abort_call=e[0] > calls[0][0]))
+        break
   # (vi) second abort: no body at all starts after it returned
   if len(rets) > 1:
     late2 = [e for e in log if e[3] == 'body_start' and e[0] > rets[1][0]]
@@ -671,15 +697,58 @@ def c09(obs, act, viols, probes):
   if obs.exc == 'KeyboardInterrupt' and obs.aborted and not abort_effective(obs) and not obs.sink:
     probes['ctrl_c_before_test_was_running'] = probes.get('ctrl_c_before_test_was_running', 0) + 1
     return
-  cbs = [e[4] for e in log if e[3] == 'callback']
+  # an execute() overlapping the running one must be refused and disturb nothing
+  oc = first_seq(log, 'overlap_call')
+  if oc is not None:
+    ex_starts = [e for e in log if e[3] == 'thread_start' and e[5] == 'TestExecutorThread']
+    # the first execute() is certainly still running until it closes its executor
+    closing = first_seq(log, 'enter', lambda e: e[4] == 'close' and e[5] == 'test_executor.py')
+    oe = [e for e in log if e[3] in ('overlap_exc', 'overlap_ret')]
+    if len(ex_starts) > 1 and (closing is None or ex_starts[1][0] < closing):
+      viols.append(_v('overlapping_execute_accepted', result=(list(oe[0][3:5]) if oe else None)))
+      return
+    if len(ex_starts) > 1 or (oe and oe[0][3] == 'overlap_ret'):
+      probes['second_execute_after_first_finished'] = probes.get('second_execute_after_first_finished', 0) + 1
+      return  # a legitimate second run from another thread; nothing to compare against
+    if oe and oe[0][4] == 'InvalidTestStateError':
+      probes['overlapping_execute_refused'] = probes.get('overlapping_execute_refused', 0) + 1
+    elif oe:
+      viols.append(_v('overlapping_execute_raised_other', exc=oe[0][4]))
+  runs = obs.extra.get('runs') or []
+  log_to = runs[0]['log_to'] if runs else len(log)
+  cbs = [e[4] for e in log[:log_to] if e[3] == 'callback']
   if cbs != list(range(ncb)):
     viols.append(_v('callbacks_not_once_in_order', called=cbs, expected=ncb, exc=obs.exc, sigint_site=site,
                     raising=[i for i, c in enumerate(spec['callbacks']) if c == 'raise']))
   if any(c == 'raise' for c in spec['callbacks']):
     probes['raising_callback'] = probes.get('raising_callback', 0) + 1
-  recs = [r for (_, r) in obs.sink]
+  sink_to = runs[0]['sink_to'] if runs else len(obs.sink)
+  recs = [r for (_, r) in obs.sink[:sink_to]]
   if recs and any(r is not recs[0] for r in recs):
     viols.append(_v('callbacks_got_different_records'))
+  # consecutive executions of the same Test object
+  prev_log, prev_sink = log_to, sink_to
+  for j, r in enumerate(runs[1:], 1):
+    probes['consecutive_executes'] = probes.get('consecutive_executes', 0) + 1
+    if r['exc'] is not None:
+      viols.append(_v('re_execute_raised', run=j, exc=r['exc'], msg=r.get('exc_msg')))
+      break
+    cbs_j = [e[4] for e in log[prev_log:r['log_to']] if e[3] == 'callback']
+    if cbs_j != list(range(ncb)):
+      viols.append(_v('callbacks_not_once_in_order', run=j, called=cbs_j, expected=ncb))
+    recs_j = [x for (_, x) in obs.sink[prev_sink:r['sink_to']]]
+    if recs_j:
+      if any(x is not recs_j[0] for x in recs_j) or (recs and recs_j[0] is recs[0]):
+        viols.append(_v('callbacks_got_different_records', run=j))
+      badj = record_complete(recs_j[0], spec)
+      if badj:
+        viols.append(_v('record_incomplete', run=j, problems=badj[:5]))
+      if (r['ret'] is True) != (recs_j[0].outcome is not None and recs_j[0].outcome.name == 'PASS'):
+        viols.append(_v('return_value_vs_outcome', run=j, ret=r['ret']))
+    pj = r['post']
+    if not pj.get('executor_none') or pj.get('instances') or pj.get('record_handlers'):
+      viols.append(_v('global_registration_left_behind', run=j, post=pj))
+    prev_log, prev_sink = r['log_to'], r['sink_to']
   if recs:
     bad = record_complete(recs[0], spec)
     if bad:
@@ -766,7 +835,7 @@ def c12(obs, act, viols, probes):
                 'body_start', 'plug_td_start', 'callback', 'enter', 'test_diag', 'diag', 'run_if'):
               nxt = e
               break
-          if nxt is not None and nxt[1] > t0 + T + 3.0 + 1e-6:
+          if nxt is not None and nxt[1] > t0 + T + 3.0 + 1e-6 and not spec.get('slow_log_s'):
             viols.append(_v('executor_late_after_timeout', phase=name, proceeded_after=round(nxt[1] - t0, 4),
                             timeout_s=T))
       else:
